@@ -322,3 +322,15 @@ PROPS['C07'] = dict(
     level_note='Trusted: GMP, ref.h, AST interpreter.',
     assumptions=[EXACT, SAN],
 )
+
+PROPS['C12'] = dict(
+    units=[dict(target=T('h_interp', parts=3), quick=dict(scale=1.0), thorough=dict(scale=5.0, shards=16))],
+    rule=('random abscissa sets: windows of >= 2 points (whole grid or strict sub-window) of grids with 2..9 points incl. two-point inputs and gap ratios up to 128; ordinates; order 1..5; boundary sets: default (35%) or generated (node, derivative 1..order, value) tuples incl. duplicates. '
+          'The exact solve (Gaussian elimination in Q) decides unique solvability; exactly singular problems are discarded and counted. Oracle A (interpolate<Q,order,exact solver>): support == input window; both adjacent pieces take y_i at x_i; derivatives 1..order-1 continuous at interior nodes; '
+          'every boundary row holds; the default set is {(first,1),(last,1),(first,2),...} = 0; all exact, checked both through the row formulation and through the absolute-basis pieces. Oracle B (interpolateUsingEigen<double|long double>): the same conditions, residuals evaluated exactly from the returned coefficients, '
+          '<= 2^10 * eps * (||M||_F ||x||_2 + ||b||_2) with M re-assembled by the harness. Non-trivial: >= 3 nodes or non-default boundaries or strict sub-window.'),
+    technique='rapidcheck generation; oracle = exact rational solver residuals (A) and norm-wise backward-error bound with exactly evaluated residuals (B)',
+    level_text='Generated-input search: exact for the generic routine, calibrated backward-error bound for the bundled Eigen adapter (observed worst ratio is printed by the harness; bound has >= 2^9 head-room). Sampling, not proof.',
+    level_note='Trusted: GMP, the harness Gaussian elimination, the row formulation transcribed from the statement. Armadillo adapter not exercised (library not installed).',
+    assumptions=[EXACT, SAN, 'backward-error level is read norm-wise (DESIGN 6.5)'],
+)
